@@ -234,6 +234,9 @@ func GenLeaf(t *rapid.T, ctx *Ctx, sc *Scenario, cfg CaseCfg, label string) (*Se
 		modes = []uint32{1025, 1025, 1024, 100, 7}
 	}
 	mode := rapid.SampledFrom(modes).Draw(t, label+":mode")
+	if rapid.IntRange(0, 5).Draw(t, label+":anyMode") == 0 {
+		mode = uint32(rapid.IntRange(1, 1024).Draw(t, label+":modeValue")) // any fixed chunk size
+	}
 	if !HooksOn {
 		mode = 1025
 	}
@@ -432,6 +435,9 @@ func GenMerge(t *rapid.T, ctx *Ctx, sc *Scenario, cfg CaseCfg, depth int, label 
 		modes = []uint32{1025, 1025, 1024, 100, 7}
 	}
 	mode := rapid.SampledFrom(modes).Draw(t, label+":outMode")
+	if rapid.IntRange(0, 5).Draw(t, label+":anyOutMode") == 0 {
+		mode = uint32(rapid.IntRange(1, 1024).Draw(t, label+":outModeValue"))
+	}
 	if !HooksOn {
 		mode = 1025
 	}
